@@ -12,7 +12,7 @@
 From Coq Require Import String.
 From Verif Require Import Lib.Base Lib.Dyadic Lib.Utf8 Model.Printf
   Proofs.PrintfSpec Proofs.PrintfBase Proofs.PrintfInt Proofs.PrintfDir
-  Proofs.PrintfSprintf Proofs.PrintfParse Proofs.PrintfPrint Proofs.PrintfStr.
+  Proofs.PrintfSprintf Proofs.PrintfParse Proofs.PrintfPrint Proofs.PrintfStr Proofs.PrintfMulti.
 
 (* ================= format parsing and run-time errors ================= *)
 
@@ -285,6 +285,67 @@ Example C09_ex_percent_c :
   /\ sprintf true ffmt_unmod (bs "%c") [n 8364] = Ok [226; 130; 172]
   /\ sprintf false ffmt_unmod (bs "%c") [VStr [] (FFin 0 0)] = Ok [0].     (* "" prints a NUL: left open by the property *)
 Proof. repeat split; vm_compute; reflexivity. Qed.
+
+(* ================= whole formats ================= *)
+
+(* any number of conversion specifications (d i o u x X c s, mixed), each preceded by literal
+   text, arguments taken in order, extra arguments ignored: sprintf prints the concatenation of
+   what C prints for each.  [item_ok] holds for the three families under the guards above. *)
+Theorem C09_whole_format_agree_partial : forall chars ffmt items post extra,
+  Forall (item_ok chars ffmt) items -> no_pct post = true ->
+  sprintf chars ffmt (fmt_of items post) (args_of items extra) = Ok (expected chars items post).
+Proof. exact sprintf_items. Qed.
+Print Assumptions C09_whole_format_agree_partial.
+
+Theorem C09_item_int : forall chars ffmt pre d wv pv aw ap a v,
+  wf_dir d = true -> is_int_conv (d_conv d) = true -> no_pct pre = true -> in_lim d wv pv ->
+  (d_width d = WStar -> awk_int (v_num aw) = Some wv) ->
+  (d_prec d = PrStar -> awk_int (v_num ap) = Some pv) ->
+  awk_int (v_num a) = Some v -> - two63 <= v < two63 ->
+  int_ok d (resolve d wv pv) v ->
+  item_ok chars ffmt (mkItem pre d wv pv aw ap a
+    (match conv_ty (d_conv d) with TyD => GInt v | _ => GUint (v mod two64) end) (AInt v)).
+Proof. exact item_ok_int. Qed.
+Print Assumptions C09_item_int.
+
+Theorem C09_item_string : forall chars ffmt pre d wv pv aw ap a s,
+  wf_dir d = true -> d_conv d = Cs -> c_defined d = true -> no_pct pre = true -> in_lim d wv pv ->
+  (d_width d = WStar -> awk_int (v_num aw) = Some wv) ->
+  (d_prec d = PrStar -> awk_int (v_num ap) = Some pv) ->
+  v_str ffmt a = Ok s ->
+  ascii s = true \/ (d_width d = WNone /\ d_prec d = PrNone) ->
+  item_ok chars ffmt (mkItem pre d wv pv aw ap a (GStr s) (AStr s)).
+Proof. exact item_ok_s. Qed.
+Print Assumptions C09_item_string.
+
+Theorem C09_item_char : forall chars ffmt pre d wv pv aw ap a ch,
+  wf_dir d = true -> d_conv d = Cc -> c_defined d = true -> no_pct pre = true -> in_lim d wv pv ->
+  (d_width d = WStar -> awk_int (v_num aw) = Some wv) ->
+  conv_c chars ffmt a = Ok ch -> rune_count ch = 1 ->
+  item_ok chars ffmt (mkItem pre d wv pv aw ap a (GBytes ch) (AChar ch)).
+Proof. exact item_ok_c. Qed.
+Print Assumptions C09_item_char.
+
+(* non-vacuity: the format "n=%5d %s|%c!" with arguments 42, "ab", 65, and one extra argument *)
+Definition ex_items : list ditem :=
+  [ mkItem (bs "n=") (mkDir [] (WLit [53]) PrNone Cd) 0 0 VNull VNull (n 42) (GInt 42) (AInt 42);
+    mkItem (bs " ") (mkDir [] WNone PrNone Cs) 0 0 VNull VNull (VStr (bs "ab") (FFin 0 0)) (GStr (bs "ab")) (AStr (bs "ab"));
+    mkItem (bs "|") (mkDir [] WNone PrNone Cc) 0 0 VNull VNull (n 65) (GBytes [65]) (AChar [65]) ].
+Example C09_ex_whole_format :
+  fmt_of ex_items (bs "!") = bs "n=%5d %s|%c!" /\
+  Forall (item_ok false ffmt_unmod) ex_items /\
+  sprintf false ffmt_unmod (bs "n=%5d %s|%c!") (args_of ex_items [n 7]) = Ok (bs "n=   42 ab|A!").
+Proof.
+  split; [vm_compute; reflexivity|]. split; [|vm_compute; reflexivity].
+  apply Forall_cons; [|apply Forall_cons; [|apply Forall_cons; [|apply Forall_nil]]].
+  - apply (item_ok_int false ffmt_unmod (bs "n=") (mkDir [] (WLit [53]) PrNone Cd) 0 0 VNull VNull (n 42) 42);
+      try reflexivity; try discriminate; try (vm_compute; split; [discriminate | reflexivity]).
+    vm_compute. intros (H1 & _). discriminate H1.
+  - apply (item_ok_s false ffmt_unmod (bs " ") (mkDir [] WNone PrNone Cs) 0 0 VNull VNull (VStr (bs "ab") (FFin 0 0)) (bs "ab"));
+      try reflexivity; try discriminate; [split; exact I | left; reflexivity].
+  - apply (item_ok_c false ffmt_unmod (bs "|") (mkDir [] WNone PrNone Cc) 0 0 VNull VNull (n 65) [65]);
+      try reflexivity; try discriminate. split; exact I.
+Qed.
 
 (* ================= print ================= *)
 
